@@ -344,8 +344,8 @@ func siteWorker(w *pool.W, arg json.RawMessage) {
 				continue
 			}
 			for _, m := range mutations() {
-				if sh.Quick && !siteMutsQuick[m.name] {
-					continue
+				if m.class == "ref" || (sh.Quick && !siteMutsQuick[m.name]) {
+					continue // writes through element references are enumerated in the route matrix only
 				}
 				c := siteCase{Kind: sh.Kind, Shape: s.name, Rep: rep, Store: sh.Store, Mut: m.name, Rot: sh.Rot}
 				if !c.build().ok {
